@@ -469,4 +469,100 @@ theorem IsDecimal.no_comma {cs v} (h : IsDecimal cs v) : ',' ∉ cs :=
 theorem Blank.no_comma {w : List Char} (h : Blank w) : ',' ∉ w :=
   fun m => space_ne_comma (h _ m) rfl
 
+
+/-! ### the whole bounds text -/
+
+theorem not_mem_append {c : Char} {a b : List Char} (ha : c ∉ a) (hb : c ∉ b) : c ∉ a ++ b :=
+  fun m => (List.mem_append.mp m).elim ha hb
+
+theorem no_space_append {a b : List Char} (ha : ∀ c ∈ a, isSpace c = false)
+    (hb : ∀ c ∈ b, isSpace c = false) : ∀ c ∈ a ++ b, isSpace c = false :=
+  fun c m => (List.mem_append.mp m).elim (ha c) (hb c)
+
+theorem parseBounds_of_isBounds {s : List Char} {b : Bounds} (h : IsBounds s b) :
+    parseBounds s = some b := by
+  obtain ⟨n1, n2, n3, n4, w1, w2, w3, w4, w5, w6, rfl, hw1, hw2, hw3, hw4, hw5, hw6,
+    h1, h2, h3, h4⟩ := h
+  have e : n1 ++ w1 ++ ',' :: w2 ++ n2 ++ w3 ++ ',' :: w4 ++ n3 ++ w5 ++ ',' :: w6 ++ n4
+      = (n1 ++ w1) ++ ',' :: ((w2 ++ n2 ++ w3) ++ ',' :: ((w4 ++ n3 ++ w5) ++ ',' :: (w6 ++ n4))) := by
+    simp [List.append_assoc]
+  have c0 : ',' ∉ n1 ++ w1 := not_mem_append h1.no_comma hw1.no_comma
+  have c1 : ',' ∉ w2 ++ n2 ++ w3 :=
+    not_mem_append (not_mem_append hw2.no_comma h2.no_comma) hw3.no_comma
+  have c2 : ',' ∉ w4 ++ n3 ++ w5 :=
+    not_mem_append (not_mem_append hw4.no_comma h3.no_comma) hw5.no_comma
+  have c3 : ',' ∉ w6 ++ n4 := not_mem_append hw6.no_comma h4.no_comma
+  have t0 : trimRight (n1 ++ w1) = n1 := trimRight_append_blank hw1 h1.no_space
+  have t1 : trimRight (trimLeft (w2 ++ n2 ++ w3)) = n2 := by
+    have hb : ∀ c ∈ w3, isSpace c = true := hw3
+    rw [List.append_assoc]
+    -- trimLeft stops at the first character of n2
+    have hne := h2.ne_nil
+    cases n2 with
+    | nil => exact absurd rfl hne
+    | cons c cs =>
+      have hc : isSpace c = false := h2.no_space c (by simp)
+      have : trimLeft (w2 ++ ((c :: cs) ++ w3)) = (c :: cs) ++ w3 := by
+        induction w2 with
+        | nil => simp [trimLeft, hc]
+        | cons x xs ih =>
+          have hx : isSpace x = true := hw2 x (by simp)
+          have := ih (fun c m => hw2 c (List.mem_cons_of_mem _ m))
+          simp only [trimLeft] at this ⊢
+          simp [hx, this]
+      rw [this]
+      exact trimRight_append_blank hw3 h2.no_space
+  have t2 : trimRight (trimLeft (w4 ++ n3 ++ w5)) = n3 := by
+    rw [List.append_assoc]
+    have hne := h3.ne_nil
+    cases n3 with
+    | nil => exact absurd rfl hne
+    | cons c cs =>
+      have hc : isSpace c = false := h3.no_space c (by simp)
+      have : trimLeft (w4 ++ ((c :: cs) ++ w5)) = (c :: cs) ++ w5 := by
+        induction w4 with
+        | nil => simp [trimLeft, hc]
+        | cons x xs ih =>
+          have hx : isSpace x = true := hw4 x (by simp)
+          have := ih (fun c m => hw4 c (List.mem_cons_of_mem _ m))
+          simp only [trimLeft] at this ⊢
+          simp [hx, this]
+      rw [this]
+      exact trimRight_append_blank hw5 h3.no_space
+  have t3 : trimLeft (w6 ++ n4) = n4 := trimLeft_blank_append hw6 h4.no_space
+  unfold parseBounds
+  rw [e, splitOn_append_sep _ c0, splitOn_append_sep _ c1, splitOn_append_sep _ c2,
+    splitOn_of_not_mem c3]
+  simp only [t0, t1, t2, t3, (decimal?_iff _ _).mpr h1, (decimal?_iff _ _).mpr h2,
+    (decimal?_iff _ _).mpr h3, (decimal?_iff _ _).mpr h4]
+
+theorem isBounds_of_parseBounds {s : List Char} {b : Bounds} (h : parseBounds s = some b) :
+    IsBounds s b := by
+  unfold parseBounds at h
+  split at h
+  · rename_i f0 f1 f2 f3 hs
+    obtain ⟨_, r1, rfl, hr1⟩ := splitOn_cons_cons hs
+    obtain ⟨_, r2, rfl, hr2⟩ := splitOn_cons_cons hr1
+    obtain ⟨_, r3, rfl, hr3⟩ := splitOn_cons_cons hr2
+    obtain ⟨rfl, _⟩ := splitOn_singleton hr3
+    split at h
+    · rename_i a b' c d ha hb hc hd
+      simp at h; subst h
+      obtain ⟨w1, hw1, e0⟩ := trimRight_decomp f0
+      obtain ⟨w2, hw2, e1⟩ := trimLeft_decomp f1
+      obtain ⟨w3, hw3, e1'⟩ := trimRight_decomp (trimLeft f1)
+      obtain ⟨w4, hw4, e2⟩ := trimLeft_decomp f2
+      obtain ⟨w5, hw5, e2'⟩ := trimRight_decomp (trimLeft f2)
+      obtain ⟨w6, hw6, e3⟩ := trimLeft_decomp r3
+      refine ⟨trimRight f0, trimRight (trimLeft f1), trimRight (trimLeft f2), trimLeft r3,
+        w1, w2, w3, w4, w5, w6, ?_, hw1, hw2, hw3, hw4, hw5, hw6,
+        (decimal?_iff _ _).mp ha, (decimal?_iff _ _).mp hb, (decimal?_iff _ _).mp hc,
+        (decimal?_iff _ _).mp hd⟩
+      have e1'' : f1 = w2 ++ (trimRight (trimLeft f1) ++ w3) := by rw [← e1', ← e1]
+      have e2'' : f2 = w4 ++ (trimRight (trimLeft f2) ++ w5) := by rw [← e2', ← e2]
+      conv => lhs; rw [e0, e1'', e2'', e3]
+      simp [List.append_assoc]
+    · simp at h
+  · simp at h
+
 end Ems.Cli
